@@ -270,7 +270,13 @@ def verify_oracles(ctx, l, kind, der, pub, sid, lam, case_id, extra_keys=()):
 
 ALT_ALGS = [("ecdsa-with-sha256", D.enc_seq(D.enc_oid((1, 2, 840, 10045, 4, 3, 2)))), ("rsasign-with-sm3", D.enc_seq(D.enc_oid((1, 2, 156, 10197, 1, 504)), D.enc_null())),
             ("sm2sign-with-sm3+NULL", D.enc_seq(D.enc_oid(X.OID_SM2SIGN_SM3), D.enc_null())), ("sm3", D.enc_seq(D.enc_oid((1, 2, 156, 10197, 1, 401)))),
-            ("sha256WithRSA", D.enc_seq(D.enc_oid((1, 2, 840, 113549, 1, 1, 11)), D.enc_null()))]
+            ("sha256WithRSA", D.enc_seq(D.enc_oid((1, 2, 840, 113549, 1, 1, 11)), D.enc_null())),
+            # the right OID with parameters that are not (only) NULL
+            ("sm2sign-with-sm3+INTEGER", D.enc_seq(D.enc_oid(X.OID_SM2SIGN_SM3), b"\x02\x01\x01")),
+            ("sm2sign-with-sm3+OCTETS", D.enc_seq(D.enc_oid(X.OID_SM2SIGN_SM3), b"\x04\x00")),
+            ("sm2sign-with-sm3+SEQUENCE", D.enc_seq(D.enc_oid(X.OID_SM2SIGN_SM3), b"\x30\x00")),
+            ("sm2sign-with-sm3+NULL+INTEGER", D.enc_seq(D.enc_oid(X.OID_SM2SIGN_SM3), D.enc_null(), b"\x02\x01\x01")),
+            ("sm2sign-with-sm3+curve-OID", D.enc_seq(D.enc_oid(X.OID_SM2SIGN_SM3), D.enc_oid((1, 2, 156, 10197, 1, 301))))]
 
 
 def alg_swaps(ctx, kind, der, verify, case_id):
